@@ -4,6 +4,10 @@
 package main
 
 import (
+	"encoding/json"
+	"os"
+	"strings"
+
 	"verif/mc/e3drive"
 	"verif/mc/e3scn"
 	"verif/mc/harness"
@@ -19,23 +23,57 @@ func scenarios(thorough bool) []e3drive.Scenario {
 	add := func(sc e3scn.Scenario, bound int) {
 		scs = append(scs, e3drive.Scenario{Sc: sc, Bound: bound})
 	}
-	add(e3scn.Commands1Q(1, o), b)
-	add(e3scn.Commands1Q(2, o), b)
-	add(e3scn.Commands1Q(3, o), b)
-	add(e3scn.BackToBack(2, o), b)
-	add(e3scn.TwoQueues(o), b)
-	add(e3scn.TwoThreads(false, o), b)
-	add(e3scn.TwoThreads(true, o), b)
-	add(e3scn.Kernel1Q(o), b)
+	// b3: bound 3 in the thorough tier for the scenarios whose bound-3 space is
+	// affordable (measured: 2cmd ~1.5e6 executions); the larger ones stay at 2.
+	b3 := b
+	add(e3scn.Commands1Q(1, o), b3)
+	add(e3scn.Commands1Q(2, o), b3)
+	add(e3scn.Commands1Q(3, o), 2)
+	add(e3scn.BackToBack(2, o), b3)
+	ot := o
+	ot.TailTicks = 3
+	add(e3scn.BackToBack(2, ot), 2)
+	add(e3scn.TwoQueues(o), 2)
+	add(e3scn.TwoThreads(false, o), 2)
+	add(e3scn.TwoThreads(true, o), 2)
 	om := o
 	om.Magic = true
-	add(e3scn.Commands1Q(3, om), b)
+	add(e3scn.Commands1Q(3, om), b3)
+	if thorough {
+		add(e3scn.BackToBack(3, o), 2)
+		add(e3scn.Kernel1Q(o), 2)
+	} else {
+		add(e3scn.Kernel1Q(o), 1)
+	}
 	return scs
 }
 
 func main() {
 	r := harness.Start("C12", "model_checking")
 	scs := scenarios(r.Thorough())
+	if r.Replay != "" {
+		// race findings are replayed by re-sampling free runs
+		var f struct {
+			Signature string             `json:"signature"`
+			Case      harness.ReplayCase `json:"case"`
+		}
+		if data, err := os.ReadFile(r.Replay); err == nil && json.Unmarshal(data, &f) == nil && strings.HasPrefix(f.Case.Scenario, "race:") {
+			replayRace(r, strings.TrimPrefix(f.Case.Scenario, "race:"), f.Signature, 300)
+		}
+	}
+	r.Assume = []string{
+		"memory model: sequential consistency at shim operations (mutex, channel, select, atomic, WaitGroup); accesses between two shim operations of a thread are atomic for the controlled scheduler, so unsynchronised accesses are only covered by the supplementary -race pass",
+		"Unlock/RUnlock/WaitGroup.Done are not scheduling points (pure releases commute to the left of other threads' operations; every equivalence class within the bound is still covered, see notes/E3.md)",
+		"a switch at a blocking point to a thread other than the lowest enabled id is counted as a deviation (the bound is slightly stricter than CHESS preemption bounding)",
+		"GPU side = minimal responder (1-cycle latency) behind a real akita direct connection; default memory-copy middleware unless the scenario name ends in -magic",
+		"select with several ready cases: the choice is explored (counts as a deviation)",
+		"message/command ids (global sequential generator) are only compared for equality",
+	}
 	e3drive.Main(r, scs, "every schedule of the instrumented driver/engine threads with at most `preemption_bound` non-default scheduling decisions is executed once on a fresh driver+engine+responder")
+	iters := 300
+	if r.Thorough() {
+		iters = 2000
+	}
+	racePass(r, iters)
 	r.Finish()
 }
